@@ -21,7 +21,6 @@ Proof.
   - exists []. reflexivity.
   - apply N.leb_le. vm_compute. reflexivity.
   - apply N.leb_le. vm_compute. reflexivity.
-  - apply N.leb_le. vm_compute. reflexivity.
 Qed.
 
 (* C12_reject_untouched is false for the padding clause on a non-finalized file: a session writes
@@ -33,7 +32,6 @@ Theorem reject_padding_refuted :
     dec_header_canon (enc_header (roots_opt nilroots roots) 1) = Some (roots, 1) /\
     (exists r, dec_header_canon pragma_body = Some (r, 2)) /\
     blen (enc_header (roots_opt nilroots roots) 1) <= w_maxh o /\
-    blen (enc_header (roots_opt nilroots roots) 1) <= default_maxh /\
     w_maxcid o <= max_digest_alloc /\
     open_new k o nilroots roots [] = Ok s0 /\
     reopen dec_header_canon k (with_dpad o p') nilroots roots
@@ -42,8 +40,8 @@ Proof.
   exists KBlockstore, wit_opts, false, [wit_root], [(wit_cid, wit_data)], 96.
   eexists. eexists.
   split; [reflexivity|]. split; [discriminate|]. split; [reflexivity|].
-  destruct wit_params as [H1 H2 H3 H4 H5].
-  split; [exact H1|]. split; [exact H2|]. split; [exact H3|]. split; [exact H4|]. split; [exact H5|].
+  destruct wit_params as [H1 H2 H3 H5].
+  split; [exact H1|]. split; [exact H2|]. split; [exact H3|]. split; [exact H5|].
   split; [vm_compute; reflexivity|vm_compute; reflexivity].
 Qed.
 
